@@ -17,7 +17,10 @@ EXPLANATION = (
     "donor's old value, if they are equal donor and receiver are the same list position and the step is void. "
     "Hence optimised bottleneck <= uniform bottleneck up to that quantum. P5: a step is taken only while the "
     "micro-op's ports are unbalanced and at most cycles/INC steps per micro-op. P6: the balancer is the only "
-    "writer of port_pressure after add_semantics on the optimised path (no other pass can raise the bottleneck)."
+    "writer of port_pressure after add_semantics on the optimised path (no other pass can raise the bottleneck). "
+    "P8 (a necessary condition of the 0.15-cycle clause, not the clause itself): osaca.inspect runs at least two sweeps of the "
+    "balancer, each guarded by `not args.fixed` only; one sweep provably leaves the kernel {0,1},{0,1},{2},{1,2} 0.167 cy "
+    "above its optimum; a sweep under a data-dependent condition is reported as not understood."
 )
 NOT_DECIDED = (
     "'Never undercuts the exact optimum' and the 0.15-cycle bound against the LP optimum on the enumerated family: "
@@ -149,6 +152,40 @@ def run(ctx):
     facts_ok = all(any((not p) and U(e) == "args.fixed" for e, p in C.facts_at(c)) for c in calls)
     ctx.check(bool(calls) and facts_ok, "P6", "optimisation runs exactly when --fixed is not given", insp.where(),
               "assign_optimal_throughput is not guarded by `not args.fixed`", insp.qname, "fixed guard")
+    # P8: number of sweeps
+    ctx.rule("P8", "the command line path sweeps the kernel at least twice, each sweep guarded by `not args.fixed` only")
+    base = C.calls_to(insp.node, "add_semantics")
+    base_facts = {(U(e), p) for e, p in C.facts_at(base[0])} if base else set()
+    uncond, cond = 0, []
+    for c in calls:
+        extra = {(U(e), p) for e, p in C.facts_at(c)} - base_facts - {("args.fixed", False)}
+        mult = 1
+        for lp in C.enclosing_loops(c):
+            k = None
+            if isinstance(lp, ast.For) and isinstance(lp.iter, ast.Call) and U(lp.iter.func) == "range" and len(lp.iter.args) == 1 \
+                    and C.const_num(lp.iter.args[0]) is not None and not any(isinstance(x, (ast.Break, ast.Return)) for x in ast.walk(lp)):
+                k = int(C.const_num(lp.iter.args[0]))
+            if k is None:
+                extra.add(("loop " + U(lp.iter if isinstance(lp, ast.For) else lp.test)[:60], True))
+            else:
+                mult *= k
+        if extra:
+            cond.append((c, sorted(extra)))
+        else:
+            uncond += mult
+    if uncond >= 2:
+        ctx.ok("P8", "%d unconditional sweep(s) on the optimised path" % uncond, insp.where(calls[0]))
+    elif cond:
+        ctx.unknown("P8", "number of sweeps", insp.where(cond[0][0]),
+                    "only %d sweep(s) run unconditionally; a further one depends on %s - whether it runs for the kernels that "
+                    "need it is a run-time question" % (uncond, cond[0][1]))
+    else:
+        ctx.bad("P8", "number of sweeps", insp.where(calls[0]) if calls else insp.where(),
+                "the optimised path runs assign_optimal_throughput %d time(s). The balancer (shape checked by P1-P7) visits the "
+                "instruction forms back to front and skips a micro-op whose admissible ports carry equal totals at that moment, so "
+                "one sweep can level the ports below the bottleneck without touching it: forms on ports {0,1},{0,1},{2},{1,2} end "
+                "at 1.25/1.25/1.50 after one sweep and at 1.31/1.31/1.38 after two, the exact optimum being 1.333 - a single sweep "
+                "is 0.167 cy above it, outside the property's 0.15 cy bound" % uncond, insp.qname, "sweep count")
     from ..flow import attr_stores
     writers = {fn.qname for fn, st, v, t in attr_stores(ctx.repo, "port_pressure") if not fn.file.startswith("osaca/data/")}
     allowed = {"ArchSemantics.assign_tp_lt", "ArchSemantics._handle_instruction_found", "ArchSemantics.assign_optimal_throughput",
